@@ -158,6 +158,8 @@ def gen_case(seed, tier):
         config["o_domain"] = cfg.choice([None, "do", "di"]) if bdir != "i" else None
     config["edges"] = {dn: cfg.choice(["pos", "neg"]) for dn in DOMS}
     config["via_renamer"] = bool(config.get("buffer") == "FFBuffer" and fl.random() < 0.25)
+    config["async_resets"] = {dn: fl.random() < 0.4 for dn in DOMS}
+    config["rerun"] = fl.random() < 0.2
     config["vendor"] = ({"platform": cfg.choice(["ice40", "ecp5", "machxo2", "gowin", "xc7", "xc6s", "xc2v", "xc3s", "xc3se", "xc3sa", "altera",
                                                   "quicklogic"]),
                          "kind": cfg.choice(["se", "se", "diff"]), "dir": cfg.choice(["i", "o", "io"]), "width": cfg.choice([1, 2, 3]),
@@ -470,7 +472,9 @@ def run_case(case):
         i_dom = o_dom = None
         buf = io.Buffer(bdir, port)
     # the domains have (synchronous) resets, pulsed by "rst" steps: FFBuffer's registers are reset-less, nothing may change
-    domains = [DomainSpec(dn, edge=config["edges"][dn], reset_less=not config.get("resets")) for dn in DOMS]
+    # (the resets may be asynchronous: held across clock edges they still leave the reset-less registers of a buffer running)
+    domains = [DomainSpec(dn, edge=config["edges"][dn], reset_less=not config.get("resets"),
+                          async_reset=bool(config.get("resets") and (config.get("async_resets") or {}).get(dn))) for dn in DOMS]
     act = {dn: (1 if config["edges"][dn] == "pos" else 0) for dn in DOMS}
     comp = config.get("companion")
     buf2 = None
@@ -636,6 +640,13 @@ def run_case(case):
             dig.add((st["k"], sorted(obs.items())))
 
     run_guarded(res, lambda: run.run(body))
+    if res.violation is None and res.harness_error is None and config.get("rerun"):
+        # the same simulator after Simulator.reset(): the buffer's registers (reset-less) are back at their initial values
+        first = dig.restart()
+        run_guarded(res, lambda: run.rerun(body))
+        F["sim_reset"] = F.get("sim_reset", 0) + 1
+        if res.violation is None and dig.hexdigest() != first:
+            res.violation = {"oracle": "differs_after_simulator_reset", "step": -1, "detail": {}}
     stats["decisions"] = run.decisions
     dig.add_events(run.events)
     nontrivial = P["obs_changes"] > 0 and any(F.values())
